@@ -62,11 +62,13 @@ type c04File struct {
 	Label string
 	Case  fileCase
 	Chunk int
+	// Hand: label of a hand-written DAG (gen.HandFamily) instead of Case
+	Hand string
 }
 
 func c04Files(quick bool) []c04File {
 	var out []c04File
-	add := func(label string, c fileCase) { out = append(out, c04File{label, c, c.K}) }
+	add := func(label string, c fileCase) { out = append(out, c04File{Label: label, Case: c, Chunk: c.K}) }
 	for _, L := range []int{0, 1, 3, 7, 12, 13} {
 		add(fmt.Sprintf("ours-w2-L%d", L), fileCase{Writer: "ours", W: 2, Chunker: "size-3", L: L, K: 3, Pattern: "distinct"})
 	}
@@ -74,6 +76,15 @@ func c04Files(quick bool) []c04File {
 	add("wrapped-empty-pb", fileCase{Writer: "balanced/raw=false/v1=false", W: 2, Chunker: "size-3", L: 0, K: 3, Pattern: "distinct"})
 	add("ref-pbleaves-L8", fileCase{Writer: "balanced/raw=false/v1=false", W: 2, Chunker: "size-3", L: 8, K: 3, Pattern: "distinct"})
 	add("ref-trickle-L10", fileCase{Writer: "trickle/raw=true/v1=true", W: 2, Chunker: "size-3", L: 10, K: 3, Pattern: "equal"})
+	// hand-written encodings: interior nodes without BlockSizes over dag-pb
+	// children (the reader measures children by opening them), and equal chunks
+	for _, h := range []string{"hand 2x2 leaves=pbfile blocksizes=none filesize=true", "hand 3 leaves=pbraw blocksizes=none filesize=false"} {
+		if spec, ok := gen.HandByLabel(h); ok {
+			_, content := spec.Build(store.New())
+			out = append(out, c04File{Label: h, Case: fileCase{L: len(content), K: 3}, Chunk: 3, Hand: h})
+		}
+	}
+	add("ours-w2-equal-L9", fileCase{Writer: "ours", W: 2, Chunker: "size-3", L: 9, K: 3, Pattern: "equal"})
 	if !quick {
 		add("ours-w3-L20", fileCase{Writer: "ours", W: 3, Chunker: "size-2", L: 20, K: 2, Pattern: "distinct"})
 		add("ours-w2-equal-L12", fileCase{Writer: "ours", W: 2, Chunker: "size-3", L: 12, K: 3, Pattern: "equal"})
@@ -223,6 +234,15 @@ type c04Built struct {
 }
 
 func (f c04File) buildOnce() (*c04Built, error) {
+	if f.Hand != "" {
+		spec, ok := gen.HandByLabel(f.Hand)
+		if !ok {
+			return nil, fmt.Errorf("unknown hand-written DAG %q", f.Hand)
+		}
+		s := store.New()
+		root, content := spec.Build(s)
+		return &c04Built{s, root, content}, nil
+	}
 	s, root, _, err := f.Case.build()
 	if err != nil {
 		return nil, err
@@ -446,6 +466,9 @@ func c04BFS(r *core.Run, f c04File, mode string) {
 }
 
 func readerKind(f c04File) string {
+	if f.Hand != "" {
+		return "multi-block"
+	}
 	if f.Case.L <= f.Chunk && f.Case.Writer != "ours" || f.Case.L <= f.Chunk {
 		return "single-block"
 	}
